@@ -208,39 +208,32 @@ Example C05_connect_from_write_cb_former_witness :
      EConnCb 0; EQ 0; EQ 0].
 Proof. exact connect_from_write_cb_former_witness. Qed.
 
-(* Finished requests get their callback: a request in write_completed_queue has the watcher in
-   the pending queue, so the next loop iteration runs uv__write_callbacks (with
-   C05_cb_exactly_once_in_order: the callback then runs exactly once).
-   Refuted by the faithful model - known finding
-   write_callback_lost_when_connect_started_before_delivery: a connect accepted while a finished
-   request waits turns the fed watcher's next run into uv__stream_connect, which does not look at
-   write_completed_queue; the callback is lost however often the loop runs ([n] more iterations).
-   Proved for every run in which no connect is accepted while a finished request waits (no ghost
-   event EOrphan) - connects at any other time, from any callback, are covered. *)
-Theorem C05_cb_delivered_refuted :
-  exists beh cfg ops, forall n,
-    let s := exec beh (init false [AErr 32] 0%Z [] cfg false) (ops ++ repeat ORun n) in
-    In (ERet 0 0%Z) (trace s) /\ ~ In O (cb_ids (trace s)) /\
-    closing s = false /\ cq s <> [] /\ fed s = false /\ armed s = false.
-Proof. exact cb_delivered_refuted. Qed.
-Print Assumptions C05_cb_delivered_refuted.
-
-Theorem C05_cb_delivered_partial :
+(* Finished requests get their callback, for every script - connects started at any time, also while
+   finished requests wait for their callbacks: a request in write_completed_queue on a stream that
+   is not closing has the watcher in the pending queue (the next loop iteration runs
+   uv__write_callbacks), or a connect is pending, which has a wake-up of its own and whose completion
+   delivers - on success uv__stream_connect feeds the watcher, on failure it runs
+   uv__write_callbacks.  With C05_cb_exactly_once_in_order: every accepted write gets exactly one
+   callback.  (Model of the code after the repair of uv__stream_connect; the former finding
+   write_callback_lost_when_connect_started_before_delivery.) *)
+Theorem C05_cb_delivered :
   forall beh blk o sa pw cfg ip ops,
   let s := exec beh (init blk o sa pw cfg ip) ops in
-  (forall ids, ~ In (EOrphan ids) (trace s)) -> closing s = false ->
-  (cq s <> [] -> fed s = true) /\ (connecting s = true -> cq s = []).
+  cq s <> [] -> closing s = false ->
+  fed s = true \/ (connecting s = true /\ (armed s = true \/ fed s = true)).
 Proof. exact cb_delivered. Qed.
-Print Assumptions C05_cb_delivered_partial.
+Print Assumptions C05_cb_delivered.
 
-(* the failing input of the finding (0 0 T ; R R W1 Kl Kl R R R ; | | | ; ; settle): no ECb 0 *)
-Example C05_cb_delivered_witness_trace :
+(* the failing input of that finding (0 0 T ; R R W1 Kl Kl R R R ; | | | ; ; settle): ECb 0 now runs in
+   the iteration of the connect callback (ghost EOrphan: request 0 was waiting when the connect was
+   accepted) *)
+Example C05_cb_delivered_former_witness :
   trace (exec (fun _ => []) (init false [AErr 32] 0%Z []
                                (Some (true, Some 115%positive, [111%Z; 0%Z], [Some 103%positive; Some 115%positive])) false)
               [ORun; ORun; OWrite [1]; OConnect; OConnect; ORun; ORun; ORun]) =
     [EConnCb (-111); EQ 0; EQ 0; EWrite 0 1; ERet 0 0; EQ 1; EConnect (-103); EQ 1; EConnect 0; EOrphan [0%nat];
-     EQ 1; EConnCb 0; EQ 1; EQ 1; EQ 1].
-Proof. vm_compute. reflexivity. Qed.
+     EQ 1; EConnCb 0; ECb 0 (-32) 0; EQ 0; EQ 0; EQ 0].
+Proof. exact cb_delivered_former_witness. Qed.
 
 (* While a connect is pending uv_try_write returns UV_EAGAIN without a system
    call, and uv_write only queues (no system call, POLLOUT untouched). *)
